@@ -194,10 +194,32 @@ pub fn gen_ops(rng: &mut Rng, n_slots: usize, ghosts: &[bool], n_ops: usize) -> 
                 continue;
             }
         }
-        let slot = rng.below_usize(n_slots);
+        let mut slot = rng.below_usize(n_slots);
+        // Prefer a slot in the stage where the broken aspect is the *only*
+        // illegal thing about the attempt (a wrong attempt id only means
+        // something while the request is CLAIMED, a stale basis while REQUESTED).
+        let in_stage = |st: u8, rng: &mut Rng| -> Option<usize> {
+            let c: Vec<usize> = (0..n_slots).filter(|s| stage[*s] == st).collect();
+            if c.is_empty() {
+                None
+            } else {
+                Some(c[rng.below_usize(c.len())])
+            }
+        };
         if roll < 78 {
             // an attempt that is illegal for most states of the slot
-            match rng.below(12) {
+            let pick = rng.below(12);
+            if rng.chance(3, 4) {
+                let want = match pick {
+                    2..=5 => Some(1),
+                    6.. => Some(2),
+                    _ => None,
+                };
+                if let Some(s) = want.and_then(|st| in_stage(st, rng)) {
+                    slot = s;
+                }
+            }
+            match pick {
                 0 => ops.push(Op::Request { slot }), // duplicate unless absent
                 1 => ops.push(Op::BadRequestCtor {
                     variant: *rng.pick(&[
@@ -264,6 +286,11 @@ pub fn gen_ops(rng: &mut Rng, n_slots: usize, ghosts: &[bool], n_ops: usize) -> 
                 }
             }
         } else if roll < 88 {
+            if rng.chance(1, 2) {
+                if let Some(s) = in_stage(3, rng) {
+                    slot = s;
+                }
+            }
             ops.push(Op::RetrySettle {
                 slot,
                 how: *rng.pick(&[
